@@ -37,6 +37,13 @@ ZONES5 = ['in:start-line', 'in:header-line', 'chunk-size-CRLF', 'chunk-data|chun
 def make_request(rng: random.Random, case: Dict[str, Any], hp: bytes) -> G.Msg:
     fr = case['fr']
     path = b'/' + b'/'.join(G.token(rng, 1, 8) for _ in range(rng.randint(0, 3)))
+    shape = rng.random()
+    if shape < 0.08:
+        path = rng.choice([b'//', b'///']) + path[1:]         # empty leading segments (path-abempty): '//cgi-bin//x'
+    elif shape < 0.14:
+        path = path + rng.choice([b'//', b'/./', b'/../x', b'/%2F', b'/;p=1', b'/a//b'])
+    elif shape < 0.17:
+        path = b'/' + G.token(rng, 1, 4) + b'/http://nested.test/x'
     if rng.random() < 0.5:
         path += b'?' + G.token(rng) + b'=' + rng.choice([b'1', b'a%20b', b"x;y", b'[1]', b'a=b&c=d', b'http://e/f'])
     more: List[Tuple[bytes, bytes]] = []
